@@ -11,14 +11,17 @@ def main():
     res = json.load(open(os.path.join(ROOT, "seeded", "RESULTS.json")))
     rows = ["| seeded change | what it needs | caught by | history |", "|---|---|---|---|"]
     late = 0
+    missed = []
     for name in sorted(res, key=lambda n: (n.split("_")[0], "r2" in n, n)):
         meta = json.load(open(os.path.join(ROOT, "seeded", name, "meta.json")))
         how = res[name]["how"]
-        if not how.startswith("caught"):
+        if how.startswith("NOT caught"):
+            missed.append(name)
+        elif not how.startswith("caught"):
             late += 1
         rows.append("| %s | %s | %s | %s |" % (name, meta["title"][:110].replace("|", "/"), res[name]["caught_by"], how.replace("|", "/")))
     rows.append("")
-    rows.append("%d of %d seeded changes are detected by the quick tier of the named check; %d of them were missed,\nmasked or crashed the check when first tried and led to the strengthenings in the last column.\nNames with `_r2` are the second round (written by fresh sub-agents after the first round's strengthenings)." % (len(res), len(res), late))
+    rows.append("%d of %d seeded changes are detected by the quick tier of the named check; %d of them were missed,\nmasked or crashed the check when first tried and led to the strengthenings in the last column; not detected: %s.\nNames with `_r2` are the second round (written by fresh sub-agents after the first round's strengthenings)." % (len(res) - len(missed), len(res), late, ", ".join(missed) or "none"))
     p = os.path.join(ROOT, "DESIGN.md")
     s = open(p).read()
     s = re.sub(r"<!-- seedtable -->.*<!-- /seedtable -->", lambda _m: "<!-- seedtable -->\n" + "\n".join(rows) + "\n<!-- /seedtable -->", s, flags=re.S)
